@@ -72,7 +72,13 @@ def instance(pattern, rng, run=6, avoid=()):
 def count_overlapping(s, sub):
     if not sub:
         return 0
-    return sum(1 for i in range(len(s) - len(sub) + 1) if s[i:i + len(sub)].upper() == sub.upper())
+    u, d = sub.upper(), s.upper()
+    if all(c in "ACGT" for c in u):
+        return sum(1 for i in range(len(d) - len(u) + 1) if d[i:i + len(u)] == u)
+    # `sub` holds ambiguity codes (a recognition site such as CCDG): a text letter matches a code it stands for (or the
+    # very same code, when the text is itself a pattern)
+    ok = lambda x, c: x == c or (x in "ACGT" and x in IUPAC.get(c, ""))
+    return sum(1 for i in range(len(d) - len(u) + 1) if all(ok(d[i + j], u[j]) for j in range(len(u))))
 
 
 def count_literal(pattern, sub):
@@ -130,6 +136,31 @@ def qualifying_enzymes():
             el = e.elucidate()
             a = e.fst5 - len(site)
             if el != site + "N" * a + "^" + "N" * k + "_" + "N":
+                continue
+            out.append((name, e, site, a, k))
+        except Exception:
+            continue
+    return out
+
+
+def ambiguous_site_enzymes():
+    """5' cutters with the same cut geometry as the qualifying ones whose recognition site holds ambiguity codes
+    (LpnPI CCDG, AvaI-like ones excluded when palindromic): the library accepts them as cutters like any other"""
+    from Bio import Restriction
+    out = []
+    for name in sorted(Restriction.AllEnzymes.elements()):
+        e = getattr(Restriction, name)
+        try:
+            if not e.is_5overhang() or e.is_palindromic() or e.cut_twice():
+                continue
+            site = e.site
+            if all(c in "ACGT" for c in site) or any(c not in IUPAC for c in site):
+                continue
+            if e.fst5 is None or e.fst5 <= len(site) or e.ovhg is None:
+                continue
+            k = -e.ovhg if e.ovhg < 0 else e.ovhg
+            a = e.fst5 - len(site)
+            if e.elucidate() != site + "N" * a + "^" + "N" * k + "_" + "N":
                 continue
             out.append((name, e, site, a, k))
         except Exception:
